@@ -27,6 +27,8 @@ def _outs_fmt_c(comp, layout, dynamic):
             base = f'((const unsigned char*)s->c.{n})' if o.type == OST.STR else f'((const unsigned char*)&s->c.{n})'
             lim = f's->{n}_counter'
             body = f'for (unsigned i = 0; i < (unsigned)({lim}) && i < {layout.size[n]}u; ++i) printf("%02x", {base}[i]);'
+            if o.type == OST.STR and o.str_null:
+                body += f' if ((unsigned)({lim}) < {layout.size[n]}u) printf("/%02x", {base}[{lim}]); else printf("/xx");'
             if isdyn:
                 lines.append(f'if (!s->c.{n}) printf("NULL"); else {{ {body} }}')
             else:
@@ -261,8 +263,8 @@ def outs_equal(a, b):
         if x == '?' or y == '?':
             continue
         if ':' in x and ':' in y:
-            lx, hx = x.split(':', 1)
-            ly, hy = y.split(':', 1)
+            lx, hx = x.split('/')[0].split(':', 1)
+            ly, hy = y.split('/')[0].split(':', 1)
             if lx != ly:
                 return False
             if hx == 'NULL' or hy == 'NULL':
